@@ -12,6 +12,7 @@ pub struct Emitter {
     pub linemap: Vec<(usize, String, usize)>, // generated line (1-based), file, source line
     pub functions: Vec<FnInfo>,
     pub probes: Vec<(usize, String, String)>,
+    pub prooftexts: Vec<String>,
     pub next_probe: usize,
     file: String,
     pub file_ranges: BTreeMap<String, (usize, usize)>,   // byte range of each /repo file in proc-macro2's source map: only spans inside it carry /repo line numbers
@@ -21,7 +22,7 @@ pub struct Emitter {
 const NO_SPACE_AFTER_KW: &[&str] = &["if", "match", "while", "in", "return", "for", "let", "else", "loop", "move", "mut", "ref", "as", "break", "continue", "dyn", "impl", "where", "unsafe", "async"];
 
 impl Emitter {
-    pub fn new() -> Self { Emitter { lines: vec![], cur: String::new(), cur_src: None, linemap: vec![], functions: vec![], probes: vec![], next_probe: 0, file: String::new(), file_ranges: BTreeMap::new(), cur_range: (0, usize::MAX) } }
+    pub fn new() -> Self { Emitter { lines: vec![], cur: String::new(), cur_src: None, linemap: vec![], functions: vec![], probes: vec![], prooftexts: vec![], next_probe: 0, file: String::new(), file_ranges: BTreeMap::new(), cur_range: (0, usize::MAX) } }
     pub fn line(&self) -> usize { self.lines.len() + 1 }
     pub fn text(&self) -> String { let mut s = self.lines.join("\n"); s.push('\n'); s }
     fn flush(&mut self) {
@@ -169,6 +170,16 @@ impl<'a> Printer<'a> {
                 TokenTree::Ident(id) => {
                     let s = id.to_string();
                     // probe marker statement: `__hx_probe ( k ) ;`
+                    // proof text inserted before a statement (`@proof F before <callee>`): `__hx_prooftext ( k ) ;`
+                    if s == "__hx_prooftext" {
+                        if let (Some(TokenTree::Group(a)), Some(TokenTree::Punct(_))) = (toks.get(i + 1), toks.get(i + 2)) {
+                            let k: usize = a.stream().to_string().trim().parse().unwrap_or(0);
+                            let txt = self.em.prooftexts.get(k).cloned().unwrap_or_default();
+                            if !self.em.cur.trim().is_empty() { self.em.flush(); }
+                            let ind = "    ".repeat(self.indent); self.em.cur.clear(); self.em.raw_block(&txt, &ind); self.start_line();
+                            self.pending_nl = false; i += 3; continue;
+                        }
+                    }
                     if s == "__hx_probe" {
                         if let (Some(TokenTree::Group(a)), Some(TokenTree::Punct(_))) = (toks.get(i + 1), toks.get(i + 2)) {
                             self.em.cur.push_str(&format!("proof {{ if hx_probe({}) {{ assert(false); }} }} // @probe {}", a.stream().to_string().trim(), a.stream().to_string().trim()));
